@@ -205,6 +205,7 @@ def worker(cfg, tier='quick'):
     ext = parts['ext']
     nmax = int(parts['nmax'])
     grow = parts.get('grow', '0') == '1'
+    mode = parts.get('mode', 'fresh')          # fresh: every restart is a new process; same: reruns in one interpreter
     fname = '/out/results' + ext
     col = hz.Collector(cfg)
     B = bsm.BatchSimulation
@@ -222,13 +223,26 @@ def worker(cfg, tier='quick'):
         with eng:
             n1 = eng.integer('n1', 1, nmax)
             n2 = eng.integer('n2', 1, nmax)
+            n3 = eng.integer('n3', 0, nmax)         # 0: no third run
             sf = eng.integer('save_frequency', 1, 3)
             cp = eng.integer('crash_point', 0, 100000)
             kind = eng.integer('kind', 0, 1)        # 0 = kill, 1 = KeyboardInterrupt
             eng.assume_base((n1 <= n2).t)
+            eng.assume_base(z3.Or(n3.t == 0, n3.t >= n2.t))
+            if mode == 'fresh':
+                eng.assume_base(n3.t == 0)
+
+            def new_process():
+                """A process restart: reload the panqec modules involved, so that no module-level or
+                class-level state survives, and re-install the environment stubs."""
+                import importlib
+                for m in (ut, bas, dsm, bsm):
+                    importlib.reload(m)
+                bsm.print = lambda *a, **k: None
+                bas.print = lambda *a, **k: None
 
             def fn():
-                N1, N2, SF, KIND = int(n1), int(n2), int(sf), int(kind)
+                N1, N2, SF, KIND, N3 = int(n1), int(n2), int(sf), int(kind), int(n3)
 
                 def install(fs):
                     ut.open = fs.open
@@ -236,12 +250,15 @@ def worker(cfg, tier='quick'):
                     ut.os = FakeOs(fs)
                     bsm.os = FakeOs(fs)
                     bas.os = FakeOs(fs)
+                # every path is its own history: start from a fresh process image
+                new_process()
                 # dry run: count the crash opportunities of the first run
                 fs0 = FS()
                 cnt = [0]
                 fs0.hook = lambda where: cnt.__setitem__(0, cnt[0] + 1)
                 install(fs0)
-                scenario((bsm, dsm), fs0, fname, spec1, N1, SF, [0])
+                scenario((bsm, dsm), fs0, '/dry/run' + ext, spec1, N1, SF, [0])     # its own path: nothing is shared
+                new_process()
                 n_opp = cnt[0]
                 eng.assume((cp <= n_opp) & (cp >= 0))
                 CP = int(cp)                       # CP == n_opp: no crash in the first run
@@ -276,21 +293,26 @@ def worker(cfg, tier='quick'):
                     crashed = 'killed'
                 except KeyboardInterrupt:
                     crashed = 'interrupt-escaped'
-                # restart: a new process, same file system, same (or grown) specification, no faults
+                # restart: same file system, same (or grown) specification, no faults; a new process
+                # (modules reloaded: no in-memory state survives) or the same interpreter
                 fs.dead = False
                 fs.hook = lambda where: None
+                if mode == 'fresh' or crashed == 'killed':
+                    new_process()
                 install(fs)
                 err = None
                 final = None
                 try:
                     batch2 = scenario((bsm, dsm), fs, fname, spec2, N2, SF, counter)
+                    if N3:
+                        batch2 = scenario((bsm, dsm), fs, fname, spec2, N3, SF, counter)
                     final = [(s._tag, s.results['n_runs'], [list(map(int, x)) for x in s.results['effective_error']],
                               len(s.results['success']), len(s.results['codespace'])) for s in batch2]
                     on_disk = ut.load_json(fname)
                 except Exception as ex:          # noqa
                     err = f'{type(ex).__name__}: {ex}'
                     on_disk = None
-                return dict(N1=N1, N2=N2, SF=SF, CP=CP, KIND=KIND, n_opp=n_opp, crashed=crashed, err=err, final=final,
+                return dict(N1=N1, N2=(N3 or N2), N2a=N2, N3=N3, SF=SF, CP=CP, KIND=KIND, n_opp=n_opp, crashed=crashed, err=err, final=final,
                             last_saved=last_saved.get('data'), on_disk=on_disk)
             ps = eng.explore(fn)
     finally:
@@ -308,8 +330,8 @@ def worker(cfg, tier='quick'):
     col.absorb(eng)
 
     def wit_of(v):
-        return dict(n1=v['N1'], n2=v['N2'], save_frequency=v['SF'], crash_point=v['CP'], kind=v['KIND'],
-                    opportunities=v['n_opp'], ext=ext, grow=grow)
+        return dict(n1=v['N1'], n2=v['N2a'], n3=v['N3'], save_frequency=v['SF'], crash_point=v['CP'], kind=v['KIND'],
+                    opportunities=v['n_opp'], ext=ext, grow=grow, mode=mode)
     kinds = {'completes-without-error': [], 'exact-trial-counts': [], 'last-completed-save-is-a-prefix': [],
              'no-trial-counted-twice': [], 'foreign-records-not-adopted': []}
     wits = {k: None for k in kinds}
@@ -386,20 +408,35 @@ def replay(path):
         ut.open, ut.gzip, ut.os, bsm.os, bas.os = fs.open, FakeGzip(fs), FakeOs(fs), FakeOs(fs), FakeOs(fs)
         bsm.print = bas.print = lambda *a, **k: None
         counter = [0]
+        killed = False
         try:
             scenario((bsm, dsm), fs, fname, spec1, w['n1'], w['save_frequency'], counter)
-        except (Killed, KeyboardInterrupt):
+        except Killed:
+            killed = True
+        except KeyboardInterrupt:
             pass
         fs.dead = False
         fs.hook = lambda where: None
         print('file after the first run:', repr(fs.files.get(fname))[:120])
+        if w.get('mode', 'fresh') == 'fresh' or killed:
+            import importlib
+            for m_ in (ut, bas, dsm, bsm):
+                importlib.reload(m_)
+            ut.open, ut.gzip, ut.os, bsm.os, bas.os = fs.open, FakeGzip(fs), FakeOs(fs), FakeOs(fs), FakeOs(fs)
+            bsm.print = bas.print = lambda *a, **k: None
         try:
             b2 = scenario((bsm, dsm), fs, fname, spec2, w['n2'], w['save_frequency'], counter)
+            if w.get('n3'):
+                b2 = scenario((bsm, dsm), fs, fname, spec2, w['n3'], w['save_frequency'], counter)
+                w['n2'] = w['n3']
             counts = [s.results['n_runs'] for s in b2]
             print('restart finished; n_runs per simulation', counts, 'requested', w['n2'])
             ids = [tuple(map(int, t)) for s in b2 for t in s.results['effective_error']]
             if 'exact' in oid:
-                bad = any(c != w['n2'] for c in counts)
+                lens = [(len(s_.results['effective_error']), len(s_.results['success']), len(s_.results['codespace']))
+                        for s_ in b2]
+                print('list lengths (effective_error, success, codespace) per simulation', lens)
+                bad = any(c != w['n2'] for c in counts) or any(x != w['n2'] for t_ in lens for x in t_)
             elif 'twice' in oid:
                 bad = len(ids) != len(set(ids))
             elif 'prefix' in oid:
@@ -424,7 +461,8 @@ def replay(path):
 
 
 def configs(tier):
-    out = ['crash ext=.json nmax=3 grow=0', 'crash ext=.json.gz nmax=3 grow=0', 'crash ext=.json nmax=3 grow=1']
+    out = ['crash ext=.json nmax=3 grow=0', 'crash ext=.json.gz nmax=3 grow=0', 'crash ext=.json nmax=3 grow=1',
+           'crash ext=.json nmax=2 grow=0 mode=same', 'crash ext=.json.gz nmax=2 grow=1 mode=same']
     if tier != 'quick':
         out += ['crash ext=.json.gz nmax=3 grow=1', 'crash ext=.json nmax=4 grow=0', 'crash ext=.json.gz nmax=4 grow=1']
     return out
@@ -446,7 +484,9 @@ def main(argv=None):
                      'byte-offset classes {0, interior, complete} stand for every byte offset of a write (an interior '
                      'prefix of the serialised JSON / gzip stream is what the real json / gzip modules see)',
                      'run_once is a stub returning serially numbered trials tagged with their simulation',
-                     'the restart is fault-free (one crash per history)'],
+                     'the restart is fault-free (one crash per history)',
+                     'a restart in a new process is modelled by reloading the panqec modules involved (no in-memory '
+                     'state survives); mode=same keeps the interpreter and adds a third run'],
         bounds=dict(n_trials='n1 <= n2 <= 3 (quick) / 4 (thorough)', save_frequency='1..3', simulations='2 (+2 when the '
                     'specification grows)', crash='every crash opportunity of the first run (before each trial, before / '
                     'after truncation, mid-write, after write, before / after rename) x {kill, KeyboardInterrupt} + no crash'),
